@@ -947,7 +947,22 @@ func indexRegexFacts() {
 		"server/secondary_indexes.go: regex", txt)
 }
 
+// notifClientFacts: the client's notifications manager resumes from the position its first batch established
+func notifClientFacts() {
+	f := parse("oxia/notifications.go")
+	fn := funcDecl(f, "shardNotificationsManager", "getNotifications")
+	b := ""
+	if fn != nil {
+		b = squash(src(fn.Body))
+	}
+	add("notificationsClientResumesFromEstablishedPosition", "Bool", boolLean(
+		strings.Contains(b, "if snm.initialized || snm.lastOffsetReceived >= 0 { startOffsetExclusive = &snm.lastOffsetReceived }")),
+		"oxia/notifications.go: (*shardNotificationsManager).getNotifications",
+		"the start offset is sent on every request after the first batch was received, also when it is -1")
+}
+
 func moreFacts() {
+	notifClientFacts()
 	indexRegexFacts()
 	newTermSyncFacts()
 	streamFacts()
